@@ -13,7 +13,7 @@ open GenjaxVerif CMap
     at index `k`, the key `split(key, N)[k]` and (for edits) the `k`-th previous subtrace.  The
     result stacks the element returns; weight and score are the sums over elements; element `k`'s
     choices sit under index `k`. -/
-theorem C11_vmap_elementwise (ds : DistSem) (m : Mode) (p : Prog) (axes : List Bool) (i : In) (r : Res)
+theorem C11_vmap_elementwise (ds : DistSem) (m : Mode) (p : Prog) (axes : List Ax) (i : In) (r : Res)
     (h : run ds m (.vmap p axes) i = .ok r) :
     ∃ as n rs, argList i.args = .ok as ∧ dimLength axes as = .ok n ∧ rs.length = n ∧
       (∀ k (hk : k < rs.length), ∃ ik, vmapElem axes as i k = .ok ik ∧ run ds m p ik = .ok rs[k]) ∧
@@ -22,14 +22,14 @@ theorem C11_vmap_elementwise (ds : DistSem) (m : Mode) (p : Prog) (axes : List B
       r.tr.choices = Trace.choicesL 0 (rs.map (·.tr)) := by
   simp only [run, vmapRun, bind_ok, pure_ok] at h
   obtain ⟨as, has, n, hn, _, _, rs, h3, rfl⟩ := h
-  refine ⟨as, n, rs, has, hn, vmapLoop_length h3, ?_, rfl, rfl, rfl, rfl⟩
+  refine ⟨as, n, rs, (vmapArgs_ok has).1, hn, vmapLoop_length h3, ?_, rfl, rfl, rfl, rfl⟩
   intro k hk
   have := vmapLoop_get h3 k hk
   simp only [bind_ok, Nat.zero_add] at this
   exact this
 
 /-- What element `k` is given. -/
-theorem C11_element_input (axes : List Bool) (as : List Val) (i ik : In) (k : Nat)
+theorem C11_element_input (axes : List Ax) (as : List Val) (i ik : In) (k : Nat)
     (h : vmapElem axes as i k = .ok ik) :
     ik.c = CMap.sub i.c (.i k) ∧ ik.key = i.key.child k ∧ ik.sel = i.sel ∧
     ∃ ea, sliceArgs axes as k = .ok ea ∧ ik.args = .tup ea := by
@@ -53,19 +53,30 @@ theorem C11_choices_under_index (ts : List Trace) (k : Nat) (hk : k < ts.length)
 theorem C11_zero_length (a : Val) : (Trace.vec a (.arr []) []).score = 0 ∧ (Trace.vec a (.arr []) []).choices = [] := by
   simp [Trace.score, Trace.scoreL, Trace.choices, Trace.choicesL]
 
+/-- The slice follows `in_axes`: along axis 1 element `k` sees column `k` of the argument, whose rows
+    the other elements share (a test of the definition on a square argument, where taking row `k`
+    instead would go unnoticed by shape checks). -/
+theorem C11_slice_follows_axis :
+    sliceArgs [some 1, none] [.arr [.arr [.int 1, .int 2], .arr [.int 3, .int 4]], .int 9] 0
+        = .ok [.arr [.int 1, .int 3], .int 9] ∧
+    sliceArgs [some 0, none] [.arr [.arr [.int 1, .int 2], .arr [.int 3, .int 4]], .int 9] 0
+        = .ok [.arr [.int 1, .int 2], .int 9] ∧
+    dimLength [none, some 1] [.int 9, .arr [.arr [.int 1, .int 2, .int 5], .arr [.int 3, .int 4, .int 6]]] = .ok 3 :=
+  ⟨rfl, rfl, rfl⟩
+
 /-- `repeat(n)` is, by the library's own definition, a vmap over `zeros(n)` paired with the
     (unmapped) argument tuple, the inner function ignoring the index. -/
 theorem C11_repeat_def (p : Prog) (n : Nat) :
     Derived.repeat p n =
-      .dimap (.whole (.tup [.zeros n, .all])) (.vmap (.dimap (.whole (.var 1)) p Derived.retId) [true, false])
+      .dimap (.whole (.tup [.zeros n, .all])) (.vmap (.dimap (.whole (.var 1)) p Derived.retId) [some 0, none])
         Derived.retId := rfl
 
 /-- … so every one of its `n` elements calls `p` on the same arguments. -/
 theorem C11_repeat_element_args (n k : Nat) (args : List Val) (hk : k < n) :
     (do let ia ← Pre.apply (.whole (.tup [.zeros n, .all])) args
-        let ea ← sliceArgs [true, false] ia k
+        let ea ← sliceArgs [some 0, none] ia k
         Pre.apply (.whole (.var 1)) ea) = .ok args := by
-  simp [Pre.apply, Expr.eval, Expr.evalL, sliceArgs, bind, Except.bind, pure, Except.pure, hk]
+  simp [Pre.apply, Expr.eval, Expr.evalL, sliceArgs, sliceAx, bind, Except.bind, pure, Except.pure, hk]
 
 end GenjaxVerif.GFI
 
@@ -75,7 +86,7 @@ open GenjaxVerif
 /-- `IndexRequest(idx, request)` on a vmap trace edits element `idx` only — by the inner function's own
     edit on that element's slice of the arguments — and keeps every other element as it is; its
     weight is the element's weight and its backward request sits under index `idx`. -/
-theorem C11_index_request_edits_one_element (ds : DistSem) (m : Mode) (p : Prog) (axes : List Bool) (key : KeyPath)
+theorem C11_index_request_edits_one_element (ds : DistSem) (m : Mode) (p : Prog) (axes : List Ax) (key : KeyPath)
     (args ret : Val) (elems : List Trace) (idx : Nat) (c : CMap) (sel : Sel) (r : Res)
     (h : editIndex ds m (.vmap p axes) key (.vec args ret elems) idx c sel = .ok r) :
     ∃ (hk : idx < elems.length) (as ea : List Val) (r' : Res), argList args = .ok as ∧ sliceArgs axes as idx = .ok ea ∧
@@ -85,7 +96,7 @@ theorem C11_index_request_edits_one_element (ds : DistSem) (m : Mode) (p : Prog)
   vmap_index_edit ds m p axes key args ret elems idx c sel r h
 
 /-- … and the weight of an index Update is new score − old score of the whole vmap trace. -/
-theorem C11_index_update_weight (ds : DistSem) (p : Prog) (axes : List Bool) (key : KeyPath)
+theorem C11_index_update_weight (ds : DistSem) (p : Prog) (axes : List Ax) (key : KeyPath)
     (args ret : Val) (elems : List Trace) (idx : Nat) (c : CMap) (sel : Sel) (r : Res)
     (hs : ∀ t ∈ elems, Shape p t) (hsafe : Safe false p)
     (h : editIndex ds .upd (.vmap p axes) key (.vec args ret elems) idx c sel = .ok r) :
